@@ -27,3 +27,7 @@ def run(tier):
                        "the group of requests issued by the guards of the last visible round is evaluated without guard callbacks; it may be recorded but is not required",
                        "steps with plan activity are left to C06"]
     return chk
+
+
+def replay(path):
+    return en.replay(path)
